@@ -276,17 +276,25 @@ func init() {
 		}
 		return rerr
 	}
-	// bytes.Buffer: only the frame is modelled - Write changes nothing but the buffer object, Bytes
-	// returns some byte slice (its relation to what was written is not modelled)
+	// bytes.Buffer: the frame, the number of Write calls and the number of bytes written are modelled
+	// (ghost:bufwrites, ghost:buflen, keyed by the buffer object); Bytes returns a slice of that length
+	// whose contents are not related to what was written (the concatenation itself is not modelled)
 	nativeModels["(*bytes.Buffer).Write"] = func(e *Encoder, fr *frame, args []*SVal, ci ssa.CallInstruction, resT types.Type) *SVal {
-		e.trusted["(*bytes.Buffer).Write / Bytes: touch only the buffer object; the bytes returned by Bytes are unconstrained (the concatenation is not modelled)"] = true
+		c := e.c
+		e.trusted["(*bytes.Buffer).Write / Bytes: touch only the buffer object; Write appends all of its argument, Bytes returns as many bytes as were written (their contents are unconstrained: the concatenation is not modelled)"] = true
+		bw := e.get(e.cur, "ghost:bufwrites", Arr(RefS, BV64))
+		e.set(e.cur, "ghost:bufwrites", c.Store(bw, args[0].T, c.BVBin("bvadd", c.Select(bw, args[0].T), c.BVLit(1, 64))))
+		bl := e.get(e.cur, "ghost:buflen", Arr(RefS, BV64))
+		e.set(e.cur, "ghost:buflen", c.Store(bl, args[0].T, c.BVBin("bvadd", c.Select(bl, args[0].T), args[1].Len)))
 		tt := resT.(*types.Tuple)
 		return &SVal{K: KTuple, Typ: resT, Fields: []*SVal{{K: KScalar, Typ: tt.At(0).Type(), T: args[1].Len}, e.zero(tt.At(1).Type())}}
 	}
 	nativeModels["(*bytes.Buffer).Bytes"] = func(e *Encoder, fr *frame, args []*SVal, ci ssa.CallInstruction, resT types.Type) *SVal {
-		e.trusted["(*bytes.Buffer).Write / Bytes: touch only the buffer object; the bytes returned by Bytes are unconstrained (the concatenation is not modelled)"] = true
+		e.trusted["(*bytes.Buffer).Write / Bytes: touch only the buffer object; Write appends all of its argument, Bytes returns as many bytes as were written (their contents are unconstrained: the concatenation is not modelled)"] = true
 		r := e.freshVal("bufbytes", resT)
 		e.typeInvariant(r)
+		bl := e.get(e.cur, "ghost:buflen", Arr(RefS, BV64))
+		e.assumeFact(e.c.Eq(r.Len, e.c.Select(bl, args[0].T)))
 		return r
 	}
 	// gopacket layer metadata: pure, and never nil (every CanDecode in the module and in gopacket/layers
